@@ -604,6 +604,7 @@ def run(tier):
 
     modules = dict(U.SHAPE_GROUPS)
     modules.update(U.OPTIONAL_GROUPS)
+    modules.update(U.GATE_OPTIONAL_GROUPS)
     modules["cb"] = U.cb_source(cb_ok)
     for r in U.ROLES:
         modules["kw_" + r.replace("-", "_")] = U.kw_source(r, role_names[r])
@@ -622,6 +623,11 @@ def run(tier):
         u = Unit("shape:" + g, os.path.join(crate, "src", g + ".rs"), source=modules[g], small=True)
         u.optional = True
         units.append(u)
+    for g in sorted(U.GATE_OPTIONAL_GROUPS):
+        u = Unit("shape:" + g, os.path.join(crate, "src", g + ".rs"), source=modules[g], small=True)
+        u.optional = True
+        u.gate_optional = True   # the lowering gate itself may refuse it (it does on the unchanged tree)
+        units.append(u)
 
     # ------------------------------------------------------------------ (C) the repository's own bridges
     for name in ("feature_tests", "example"):
@@ -637,7 +643,7 @@ def run(tier):
     timing["generate"] = round(time.time() - tg, 1)
     for u in units:
         for tag in list(u.rejected):
-            if "Lowering error" in u.rejected[tag] and not u.uid.startswith("repo:"):
+            if "Lowering error" in u.rejected[tag] and not u.uid.startswith("repo:") and not getattr(u, "gate_optional", False):
                 raise MachineryError("generated module %s is rejected by the gate (%s): %s" % (u.uid, tag, u.rejected[tag]))
         if not u.out and not u.optional:
             raise MachineryError("no backend accepted %s: %s" % (u.uid, u.rejected))
